@@ -533,12 +533,33 @@ def guarded_by_related_test(f, bi):
         return False, "no operand provenance"
     if "clamped" in sa:
         return True, "operand clamped (min / saturating / checked / wrapping arithmetic)"
+    t = f.blocks[bi]["term"]
+    is_index = (t["k"] == "assert" and t["kind"] == "bounds") or (t["k"] == "call" and re.search(r"index|slice_index|split_at|copy_within|drain|insert$|remove$", callee_key(t)))
     for sb in guarding_branches(f, bi):
-        ga = atoms_of_operand(f, f.blocks[sb]["term"]["d"])
+        d = f.blocks[sb]["term"]["d"]
+        ga = atoms_of_operand(f, d)
         common = sa & ga
-        if common:
-            return True, "guarded by the branch in bb%d on %s" % (sb, ",".join(sorted(common))[:80])
-    return False, "no dominating test of " + ",".join(sorted(sa))[:80]
+        if not common:
+            continue
+        if is_index and not _is_upper_bound_test(f, d):
+            continue      # a test such as `i > 0` / `x.is_some()` says nothing about the upper bound of an index
+        return True, "guarded by the branch in bb%d on %s" % (sb, ",".join(sorted(common))[:80])
+    return False, "no dominating " + ("upper-bound " if is_index else "") + "test of " + ",".join(sorted(sa))[:80]
+
+
+def _is_upper_bound_test(f, d):
+    """the switch discriminant is an ordering comparison against a length-like or positive constant
+    value, or the discriminant of an Option/Result produced by a checked accessor (get, checked_*, split_at_checked, position..)"""
+    txt = f.deep(d)
+    if re.search(r"::(get|get_mut|checked_\w+|split_at_checked|split_first|split_last|first|last|position|find|strip_prefix|strip_suffix)\(", txt):
+        return True
+    m = re.search(r" (Lt|Le|Gt|Ge) ", txt)
+    if not m:
+        return False
+    if re.search(r"len\(|PtrMetadata|capacity\(|Len\(", txt):
+        return True
+    nums = [int(x) for x in re.findall(r"const (\d+)_", txt)]
+    return any(n >= 1 for n in nums)
 
 
 # ---------------------------------------------------------------------------------------------
